@@ -684,7 +684,7 @@ def run_case(case):
                     bump(out.probes, "successful_predict_after_abort")
             elif kindop == "getdist":
                 out.steps += 1
-                lib_call("get_distances", m.get_distances)
+                lib_call("get_distances", m.get_distances, bool((k + n) % 2))
                 log.add("getdist")
                 norm.append(("getdist",))
             elif kindop == "knob":
